@@ -11,7 +11,8 @@
    content of each syntax theorem is that the pattern accepts *exactly* that restriction. *)
 From Coq Require Import List NArith ZArith Bool.
 From PP Require Import Model.Str Model.Regex Model.Builtins Gen.GenRegex Gen.GenHelpers Proofs.BuiltinsProofs.
-From PP Require Import Model.Quoted Proofs.QuotedProofs Model.Helpers Proofs.HelpersProofs.
+From PP Require Import Model.Quoted Proofs.QuotedProofs Proofs.QuotedProofs2 Proofs.QuotedProofs3 Proofs.QuotedProofs4.
+From PP Require Import Model.Helpers Proofs.HelpersProofs.
 Import ListNotations.
 
 (* ------------------------------------------------------------------ the meaning of a reference grammar *)
@@ -192,8 +193,11 @@ Proof. vm_compute. repeat split. Qed.
    roundtrip_hyp: quote strings non-empty; esc_char differs from the first end-quote character; neither is a newline;
    without multiline the content has no \n / \r; and when white-space escapes are converted and esc_char is the
    backslash, the end quote does not start with one of t n f r x u 0-7.
-   Not covered by the theorem (correspondence over the parameter grid instead): esc_quote given (F-18a below),
-   no esc_char and no esc_quote (content then cannot contain the end quote at all). *)
+   The other configurations have their own theorems below: no esc_char and no esc_quote (C18_quoted_roundtrip_plain),
+   esc_quote only (C18_quoted_roundtrip_escquote_partial), esc_char and esc_quote (C18_quoted_roundtrip_both_partial,
+   F-18a being the excluded content), unquote_results = false (C18_quoted_raw).  Model.Quoted.qs_scope says which
+   theorem covers a case; the harness evaluates the same conditions in Python as the scope of its oracle on the
+   implementation and compares the two on every model case. *)
 Theorem C18_quoted_roundtrip_partial : forall q eq e ml unq cws content,
   let cfg := esc_cfg q eq e ml unq cws in
   roundtrip_hyp cfg e content = true ->
@@ -208,6 +212,90 @@ Example C18_quoted_roundtrip_instance :
   roundtrip_hyp cfg 92%N content = true /\
   quoted_source cfg content = [60; 60; 92; 62; 92; 62; 92; 62; 92; 92; 116; 10; 97; 62; 62; 62]%N /\
   qs_parse cfg (quoted_source cfg content) 0 = Some (16, content).
+Proof. vm_compute. repeat split. Qed.
+
+(* --- no esc_char, no esc_quote (plain_cfg).  Every quote / end-quote string (any length: the look-ahead alternatives
+   e1(?!e2..) of a multi-character end quote are part of the proved pattern), multiline, unquote_results,
+   convert_whitespace_escapes, EVERY content under plain_hyp: quotes non-empty; (content ++ end) has its first occurrence
+   of the end quote at |content| (nothing can be escaped here, so the end quote may neither occur in the content nor
+   straddle the closing one); without multiline no \n / \r in the content; and, when the result is unquoted with
+   white-space escapes converted, no backslash in the content.  That last exclusion is F-18b (C18_ws_escape_refuted);
+   the others are the intrinsic domain of the configuration, hence no _partial suffix. *)
+Theorem C18_quoted_roundtrip_plain : forall q eq ml unq cws content,
+  let cfg := plain_cfg q eq ml unq cws in
+  plain_hyp cfg content = true ->
+  qs_parse cfg (quoted_source cfg content) 0 =
+    Some (length (quoted_source cfg content), if unq then content else quoted_source cfg content).
+Proof. exact quoted_roundtrip_plain. Qed.
+
+(* QuotedString("<!--", end_quote_char="-->"), content  a--b->-  : dashes inside, and a trailing dash that makes the
+   closing quote start one character "too early" for the longest look-ahead alternative *)
+Example C18_quoted_roundtrip_plain_instance :
+  let cfg := plain_cfg [60; 33; 45; 45]%N [45; 45; 62]%N false true true in
+  let content := [97; 45; 45; 98; 45; 62; 45]%N in
+  plain_hyp cfg content = true /\
+  quoted_source cfg content = [60; 33; 45; 45; 97; 45; 45; 98; 45; 62; 45; 45; 45; 62]%N /\
+  qs_parse cfg (quoted_source cfg content) 0 = Some (14, content).
+Proof. vm_compute. repeat split. Qed.
+
+(* --- unquote_results = false: whatever the configuration (any esc_char / esc_quote), input and position, the token
+   is the text the pattern matched, unchanged (the round-trip theorems give: the whole quoted source) *)
+Theorem C18_quoted_raw : forall cfg s loc e tok,
+  q_unquote cfg = false -> qs_parse cfg s loc = Some (e, tok) ->
+  re_match (qs_pattern cfg) s loc = Some e /\ tok = substr s loc e.
+Proof. exact quoted_raw. Qed.
+
+Example C18_quoted_raw_instance :
+  let cfg := plain_cfg [60; 33; 45; 45]%N [45; 45; 62]%N false false true in
+  let content := [97; 92; 116; 45]%N in                          (* a backslash-t stays as it is *)
+  plain_hyp cfg content = true /\
+  qs_parse cfg (quoted_source cfg content) 0 = Some (11, [60; 33; 45; 45; 97; 92; 116; 45; 45; 45; 62]%N).
+Proof. vm_compute. repeat split. Qed.
+
+(* --- esc_quote without esc_char (escq_cfg): content escaped by replacing every end quote by the esc_quote.
+   _partial: proved for every content, quote string, multiline, unquote_results, convert_whitespace_escapes under
+   escq_hyp: quotes non-empty, ONE-character end quote, the esc_quote STARTS WITH it and is longer (SQL style '' or
+   e.g. 'x), no \n / \r in the content unless multiline, and (unquoted with white-space conversion) no backslash in the
+   escaped text.  Excluded, decided by the oracle on the implementation only: esc_quote containing the end-quote
+   character elsewhere than in front (round-trips too, by brute force), esc_quote without it (fails as soon as the
+   content contains the esc_quote: it comes back as an end quote), multi-character end quotes (a content ending with a
+   proper prefix of the end quote cannot be protected by an esc_quote), esc_quote = end quote. *)
+Theorem C18_quoted_roundtrip_escquote_partial : forall q eq w ml unq cws content,
+  let cfg := escq_cfg q eq w ml unq cws in
+  escq_hyp cfg w content = true ->
+  qs_parse cfg (quoted_source cfg content) 0 =
+    Some (length (quoted_source cfg content), if unq then content else quoted_source cfg content).
+Proof. exact quoted_roundtrip_escquote. Qed.
+
+(* QuotedString("'", esc_quote="''"), content  it's ''  *)
+Example C18_quoted_roundtrip_escquote_instance :
+  let cfg := escq_cfg [39]%N [39]%N [39; 39]%N false true true in
+  let content := [105; 116; 39; 115; 32; 39; 39]%N in
+  escq_hyp cfg [39; 39]%N content = true /\
+  quoted_source cfg content = [39; 105; 116; 39; 39; 115; 32; 39; 39; 39; 39; 39]%N /\
+  qs_parse cfg (quoted_source cfg content) 0 = Some (12, content).
+Proof. vm_compute. repeat split. Qed.
+
+(* --- esc_char AND esc_quote (escboth_cfg): the user escapes with the esc_char (escape_content ignores the esc_quote).
+   _partial: every content that does NOT contain the esc_quote (F-18a below is the content that does), under the
+   hypotheses of the esc_char case (roundtrip_hyp) and: esc_quote non-empty and not containing the esc_char (so that
+   the esc_quote alternative of the pattern, read from a unit boundary, runs over unescaped characters only or dies
+   inside the closing quote).  Excluded: an esc_quote that contains the esc_char (e.g. backslash + quote). *)
+Theorem C18_quoted_roundtrip_both_partial : forall q eq e w ml unq cws content,
+  let cfg := escboth_cfg q eq e w ml unq cws in
+  both_hyp cfg e w content = true ->
+  qs_parse cfg (quoted_source cfg content) 0 =
+    Some (length (quoted_source cfg content), if unq then content else quoted_source cfg content).
+Proof. exact quoted_roundtrip_both. Qed.
+
+(* quote = one double-quote character DQ, esc_char = backslash BS, esc_quote = DQ DQ; content  a DQ b BS DQ  (no two
+   adjacent double quotes), quoted as  DQ a BS DQ b BS BS BS DQ DQ *)
+Example C18_quoted_roundtrip_both_instance :
+  let cfg := escboth_cfg [34]%N [34]%N 92%N [34; 34]%N false true true in
+  let content := [97; 34; 98; 92; 34]%N in
+  both_hyp cfg 92%N [34; 34]%N content = true /\
+  quoted_source cfg content = [34; 97; 92; 34; 98; 92; 92; 92; 34; 34]%N /\
+  qs_parse cfg (quoted_source cfg content) 0 = Some (10, content).
 Proof. vm_compute. repeat split. Qed.
 
 (* F-18a: quote = one double-quote character, esc_char = backslash, esc_quote = two double quotes.  The content
